@@ -606,14 +606,16 @@ def check_lexeme(impl: Impl, cls: str, s: str) -> list[dict]:
         bad('verbatim', f'lexeme {s!r} is stored as {t.raw_text!r}')
     if cls == 'Null':
         return fails
-    if meaning[0] == 'invalid':
-        bad('verbatim', f'lexeme {s!r} has no valid meaning but was accepted with value {t.value!r}')
-        return fails
     if meaning[0] == 'ok':
-        got = (t.indent, t.value) if cls == 'BlockComment' else t.value
-        ok = got == meaning[1] if cls != 'Number' else (got == meaning[1] and got.as_tuple() == meaning[1].as_tuple())
-        if not ok:
-            bad('meaning', f'lexeme {s!r} means {meaning[1]!r} but its value is {got!r}')
+        # the value must describe the text: writing it back gives a text with the same value
+        try:
+            back = K.from_value(t.value, indent=t.indent) if cls == 'BlockComment' else K.from_value(t.value)
+            t3 = impl.p.parse_token(back.raw_text, K)
+            same = same_value(cls, t3.value, t.value) if cls != 'Number' else t3.value == t.value
+        except Exception as e:
+            same = False
+        if not same and in_domain(cls, t.value, t.indent if cls == 'BlockComment' else ''):
+            bad('describe', f'lexeme {s!r} has value {t.value!r}, which does not write back to a text with that value')
     return fails
 
 
